@@ -50,37 +50,12 @@ Section Compile.
     | a :: r => eval_atomC a b (fun b' resume => eval_condsC r b' k resume) done
     end.
 
-  (* evaluate_selected_variables: itertools.product materialises the generator of every selected variable first *)
-  Fixpoint collect_loop (fuel : nat) (h : nat) (acc : list Z) (k : list Z -> co) : co :=
-    match fuel with
-    | O => COut
-    | S f => CPull h (fun o => match o with
-                               | OYield v => collect_loop f h (acc ++ [v]) k
-                               | OStop => k acc
-                               | OErr => CErr
-                               end)
-    end.
-  Definition collectC (x : nat) (b : bindings) (k : list Z -> co) : co :=
-    match lookup b x with
-    | Some v => k [v]
-    | None => CNew x (fun h => collect_loop F h [] k)
-    end.
-  Fixpoint collect_all (sel : list nat) (b : bindings) (acc : list (list Z)) (k : list (list Z) -> co) : co :=
-    match sel with
-    | [] => k acc
-    | x :: r => collectC x b (fun vs => collect_all r b (acc ++ [vs]) k)
-    end.
-  Fixpoint cart (vals : list (list Z)) : list (list Z) :=
-    match vals with
-    | [] => [[]]
-    | vs :: r => flat_map (fun v => map (cons v) (cart r)) vs
-    end.
-  Fixpoint yield_all (rows : list (list Z)) (done : co) : co :=
-    match rows with [] => done | r :: t => CYield r (yield_all t done) end.
-
+  (* evaluate_selected_variables (krrood 32abf51): lazy nested loops over the selected expressions, leftmost slowest, each
+     evaluated under the bindings the ones before it produced; a bound selected variable yields once, an unbound one opens
+     a handle on its domain; a row leaves as soon as the innermost loop produces it (nothing is drained beforehand) *)
   Definition compile (q : query) : co :=
     eval_condsC (q_conds q) []
-      (fun b resume => collect_all (q_sel q) b [] (fun vals => yield_all (cart vals) resume)) CEnd.
+      (fun b resume => bind_allC (q_sel q) b (fun b' r => CYield (row (q_sel q) b') r) resume) CEnd.
 End Compile.
 
 Section Machine.
